@@ -25,6 +25,14 @@
   removed from the table; in the mechanism the name keeps its cell and the cell becomes the placeholder
   again, so callers compiled before, between and after a later `defun` all reach the new definition.
 
+  Global variables (`defvar` / `defparameter` / top-level `setq`): the specification keeps a name-keyed
+  table `G` that a free variable of a body is looked up in after the parameters and the captured
+  variables. The mechanism keeps *variable cells* (`VarVal`): `Lambda.Compile` replaces a body that is a
+  bare symbol naming a variable that does not exist yet by a **pointer to a fresh unbound cell**
+  (`Code.gref`), every other reference is looked up by name when evaluated; `Package.Set` stores the
+  value **into the cell the name already has**, so a function compiled before the variable existed sees
+  every later assignment.
+
   The theorems (Theorems/C08.lean) show that the mechanism refines the specification for every
   history, and that the specification is independent of definition order.
 
@@ -187,9 +195,9 @@ def evalList {α : Type} (ev : α → Out) : List α → Except Out (List Val)
       | .error o => .error o
     | o => .error o
 
-/-- The direct evaluator. `fuel` bounds the nesting depth of evaluation. A function body sees
-    only its own parameters (generated bodies are closed). -/
-def eval (Φ : FunTable) : Nat → Env → Expr → Out
+/-- The direct evaluator. `fuel` bounds the nesting depth of evaluation. A function body sees its
+    parameters, the variables captured by its definition, then the global variables `G`. -/
+def eval (Φ : FunTable) (G : Env) : Nat → Env → Expr → Out
   | 0, _, _ => .timeout
   | n+1, env, e =>
     match e with
@@ -198,42 +206,65 @@ def eval (Φ : FunTable) : Nat → Env → Expr → Out
     | .var x =>
       match env.lookup x with
       | some v => .val v
-      | none => .err (.unbound x)
+      | none =>
+        match G.lookup x with        -- a free variable: the global value it has *now*
+        | some v => .val v
+        | none => .err (.unbound x)
     | .prim op a b =>
-      match eval Φ n env a with
+      match eval Φ G n env a with
       | .val va =>
-        match eval Φ n env b with
+        match eval Φ G n env b with
         | .val vb => primApply op va vb
         | o => o
       | o => o
     | .ite c t e =>
-      match eval Φ n env c with
-      | .val .nil => eval Φ n env e
-      | .val _ => eval Φ n env t
+      match eval Φ G n env c with
+      | .val .nil => eval Φ G n env e
+      | .val _ => eval Φ G n env t
       | o => o
     | .let1 x v b =>
-      match eval Φ n env v with
-      | .val vv => eval Φ n ((x, vv) :: env) b
+      match eval Φ G n env v with
+      | .val vv => eval Φ G n ((x, vv) :: env) b
       | o => o
     | .call f args =>
       match Φ.lookup (norm f) with
       | none => .err (.undefinedFunction (norm f))
       | some lam =>
-        match evalList (fun a => eval Φ n env a) args with
+        match evalList (fun a => eval Φ G n env a) args with
         | .error o => o
         | .ok vs =>
           match bindArgs lam.sig vs with
           | none => .err (.arity (norm f))
           | some env₀ =>
-            match evalAux (fun env' a => eval Φ n env' a) (env₀ ++ lam.env) lam.aux with
+            match evalAux (fun env' a => eval Φ G n env' a) (env₀ ++ lam.env) lam.aux with
             | .error o => o
-            | .ok env₁ => eval Φ n env₁ lam.body
+            | .ok env₁ => eval Φ G n env₁ lam.body
+
+/-- how a top-level form gives a global variable its value -/
+inductive SetKind where
+  | defvar | defparameter | setq
+  deriving DecidableEq, Repr
+
+/-- the value of a variable-defining form: `setq` returns the value, the others the symbol -/
+def setResult (k : SetKind) (x : String) (v : Val) : Out :=
+  match k with
+  | .setq => .val v
+  | _ => .val (.sym x)
+
+/-- `defvar` of a variable that has a value does nothing (and does not evaluate its init form) -/
+def skipSet (k : SetKind) (bound : Bool) : Bool :=
+  match k with
+  | .defvar => bound
+  | _ => false
 
 /-- top-level forms of a history -/
 inductive Form where
   | defun (f : String) (binds : List (String × Expr)) (lam : Lam)
       -- `(defun f …)`, or `(let (binds) (defun f …))`: the definition captures the bindings
   | undef (f : String)     -- `(fmakunbound 'f)`
+  | setvar (k : SetKind) (x : String) (e : Expr)
+      -- `(defvar x e)` (only when `x` is unbound; `e` is not evaluated otherwise),
+      -- `(defparameter x e)`, top-level `(setq x e)`
   | expr (e : Expr)
   | again (j : Nat)        -- evaluate once more the j-th expression form evaluated so far
   deriving Repr
@@ -241,19 +272,26 @@ inductive Form where
 /-- the table without any definition of `f` -/
 def undefTable (Φ : FunTable) (f : String) : FunTable := Φ.filter (fun p => p.1 != f)
 
-/-- `run`: the meaning of a history. `hist` = the expression forms evaluated so far. -/
-def run (fuel : Nat) : FunTable → List Expr → List Form → List Out
-  | _, _, [] => []
-  | Φ, hist, .defun f binds lam :: rest =>
-    match evalBinds (fun e => eval Φ fuel [] e) binds with
-    | .ok env => .val (.sym (norm f)) :: run fuel ((norm f, { lam with env := env }) :: Φ) hist rest
-    | .error o => o :: run fuel Φ hist rest
-  | Φ, hist, .undef f :: rest => .val (.sym (norm f)) :: run fuel (undefTable Φ (norm f)) hist rest
-  | Φ, hist, .expr e :: rest => eval Φ fuel [] e :: run fuel Φ (hist ++ [e]) rest
-  | Φ, hist, .again j :: rest =>
+/-- `run`: the meaning of a history. `G` = the global variables, `hist` = the expression forms
+    evaluated so far. -/
+def run (fuel : Nat) : FunTable → Env → List Expr → List Form → List Out
+  | _, _, _, [] => []
+  | Φ, G, hist, .defun f binds lam :: rest =>
+    match evalBinds (fun e => eval Φ G fuel [] e) binds with
+    | .ok env => .val (.sym (norm f)) :: run fuel ((norm f, { lam with env := env }) :: Φ) G hist rest
+    | .error o => o :: run fuel Φ G hist rest
+  | Φ, G, hist, .undef f :: rest => .val (.sym (norm f)) :: run fuel (undefTable Φ (norm f)) G hist rest
+  | Φ, G, hist, .setvar k x e :: rest =>
+    if skipSet k (G.lookup x).isSome then .val (.sym x) :: run fuel Φ G hist rest
+    else
+      match eval Φ G fuel [] e with
+      | .val v => setResult k x v :: run fuel Φ ((x, v) :: G) hist rest
+      | o => o :: run fuel Φ G hist rest
+  | Φ, G, hist, .expr e :: rest => eval Φ G fuel [] e :: run fuel Φ G (hist ++ [e]) rest
+  | Φ, G, hist, .again j :: rest =>
     match hist[j]? with
-    | some e => eval Φ fuel [] e :: run fuel Φ hist rest
-    | none => .err (.noSuchForm j) :: run fuel Φ hist rest
+    | some e => eval Φ G fuel [] e :: run fuel Φ G hist rest
+    | none => .err (.noSuchForm j) :: run fuel Φ G hist rest
 
 /-! ## compiled code, the store of shared cells, and the code evaluator (mechanism) -/
 
@@ -271,6 +309,9 @@ inductive Code where
   | ite (c t e : Code)
   | let1 (x : String) (v body : Code)
   | call (r : Ref) (f : String) (args : List Code)
+  | gref (i : Nat) (x : String)
+      -- a pointer to the variable cell `i` (`*VarVal` stored in `Lambda.Forms` by `Lambda.Compile`):
+      -- evaluated without looking at any scope
   deriving Repr
 
 structure CLam where
@@ -285,11 +326,29 @@ structure CLam where
 structure Store where
   names : List (String × Nat)
   cells : List (Option CLam)
+  /-- `Package.vars` (name → variable cell); `vcells[i] = none` is the unbound placeholder that
+      `Lambda.Compile` registers for a bare symbol naming a variable that does not exist yet -/
+  vnames : List (String × Nat)
+  vcells : List (Option Val)
   deriving Repr
 
-def Store.empty : Store := ⟨[], []⟩
+def Store.empty : Store := ⟨[], [], [], []⟩
 
 def Store.cellOf (σ : Store) (f : String) : Option Nat := σ.names.lookup f
+
+def Store.vcellOf (σ : Store) (x : String) : Option Nat := σ.vnames.lookup x
+
+/-- the content of a variable cell: `none` = unbound -/
+def Store.vcellVal (σ : Store) (i : Nat) : Option Val :=
+  match σ.vcells[i]? with
+  | some (some v) => some v
+  | _ => none
+
+/-- the global value of `x` found by name (`CurrentPackage.Get`) -/
+def Store.gval (σ : Store) (x : String) : Option Val :=
+  match σ.vcellOf x with
+  | some i => σ.vcellVal i
+  | none => none
 
 /-- the cell a call site reaches -/
 def Store.target (σ : Store) (r : Ref) (f : String) : Option Nat :=
@@ -305,6 +364,13 @@ def evalCode (σ : Store) : Nat → Env → Code → Out
     | .kw k => .val (.kw k)
     | .var x =>
       match env.lookup x with
+      | some v => .val v
+      | none =>
+        match σ.gval x with
+        | some v => .val v
+        | none => .err (.unbound x)
+    | .gref i x =>
+      match σ.vcellVal i with
       | some v => .val v
       | none => .err (.unbound x)
     | .prim op a b =>
@@ -397,7 +463,7 @@ end
 def declare (σ : Store) (f : String) : Store :=
   match σ.cellOf f with
   | some _ => σ
-  | none => ⟨(f, σ.cells.length) :: σ.names, σ.cells ++ [none]⟩
+  | none => { σ with names := (f, σ.cells.length) :: σ.names, cells := σ.cells ++ [none] }
 
 def declareAll (σ : Store) (fs : List String) : Store := fs.foldl declare σ
 
@@ -412,13 +478,44 @@ def embedAux : List (String × Expr) → List (String × Code)
   | [] => []
   | (x, a) :: rest => (x, embed a) :: embedAux rest
 
+/-- the variables a body sees before the global ones: the lambda list (with `&aux`) and the
+    variables captured by the definition -/
+def locals (lam : Lam) : List String :=
+  lam.sig.req ++ lam.sig.opt.map (·.1) ++ lam.sig.key.map (·.1) ++ lam.aux.map (·.1) ++ lam.env.map (·.1)
+
+/-- give the variable `x` a cell if it has none: an unbound placeholder -/
+def declareVar (σ : Store) (x : String) : Store :=
+  match σ.vcellOf x with
+  | some _ => σ
+  | none => { σ with vnames := (x, σ.vcells.length) :: σ.vnames, vcells := σ.vcells ++ [none] }
+
+/-- `Lambda.Compile`: a body form that is a bare symbol which is neither a variable of the function
+    nor a variable the package knows becomes a pointer to a fresh unbound variable cell; a known one
+    stays a symbol (looked up by name on every call); a list form is compiled by `CompileList`. -/
+def compileBody (σ : Store) (lam : Lam) : Code × Store :=
+  match lam.body with
+  | .var x =>
+    if (locals lam).contains x then (.var x, σ)
+    else
+      match σ.vcellOf x with
+      | some _ => (.var x, σ)
+      | none => (.gref σ.vcells.length x, declareVar σ x)
+  | e => compile σ e
+
+/-- `Package.Set`: the value is stored **in the cell the name already has** (possibly the unbound
+    placeholder a compiled function points to); only an unknown name gets a new cell -/
+def setVar (σ : Store) (x : String) (v : Val) : Store :=
+  match σ.vcellOf x with
+  | some i => { σ with vcells := σ.vcells.set i (some v) }
+  | none => { σ with vnames := (x, σ.vcells.length) :: σ.vnames, vcells := σ.vcells ++ [some v] }
+
 /-- `defun`: compile the body (`Lambda.Compile`), then patch the name's cell in place
     (`Package.DefLambda`); a name without a cell gets one. -/
 def define (σ : Store) (f : String) (lam : Lam) : Store :=   -- `f`: the normalised name
-  let (cb, σ₁) := compile σ lam.body
+  let (cb, σ₁) := compileBody σ lam
   let σ₂ := declare σ₁ f
   match σ₂.cellOf f with
-  | some i => ⟨σ₂.names, σ₂.cells.set i (some ⟨lam.sig, embedAux lam.aux, cb, lam.env⟩)⟩
+  | some i => { σ₂ with cells := σ₂.cells.set i (some ⟨lam.sig, embedAux lam.aux, cb, lam.env⟩) }
   | none => σ₂
 
 /-- `fmakunbound`: the name keeps its cell (call sites compiled earlier point to it, a later `defun`
@@ -426,7 +523,7 @@ def define (σ : Store) (f : String) (lam : Lam) : Store :=   -- `f`: the normal
     fails as an undefined function until the name is defined again -/
 def undefine (σ : Store) (f : String) : Store :=
   match σ.cellOf f with
-  | some i => ⟨σ.names, σ.cells.set i none⟩
+  | some i => { σ with cells := σ.cells.set i none }
   | none => σ
 
 mutual
@@ -443,6 +540,7 @@ def cacheAll (σ : Store) : Code → Code
     .call (match r with
            | .late => refOf σ (norm f)
            | .cell i => .cell i) f (cacheAllList σ args)
+  | .gref i x => .gref i x
 def cacheAllList (σ : Store) : List Code → List Code
   | [] => []
   | a :: as => cacheAll σ a :: cacheAllList σ as
@@ -459,6 +557,13 @@ def runC (fuel : Nat) : Store → List Code → List Form → List Out
     | .ok env => .val (.sym (norm f)) :: runC fuel (define σ (norm f) { lam with env := env }) objs rest
     | .error o => o :: runC fuel σ objs rest
   | σ, objs, .undef f :: rest => .val (.sym (norm f)) :: runC fuel (undefine σ (norm f)) objs rest
+  | σ, objs, .setvar k x e :: rest =>
+    if skipSet k (σ.gval x).isSome then .val (.sym x) :: runC fuel σ objs rest
+    else
+      let (c, σ') := compile σ e
+      match evalCode σ' fuel [] c with
+      | .val v => setResult k x v :: runC fuel (setVar σ' x v) objs rest
+      | o => o :: runC fuel σ' objs rest
   | σ, objs, .expr e :: rest =>
     let (c, σ') := compile σ e
     evalCode σ' fuel [] c :: runC fuel σ' (objs ++ [cacheAll σ' c]) rest
